@@ -136,6 +136,16 @@ theorem c14_single_drainer (as : List Act) :
       | false => have := (hj.dr_f hd).1; rw [h] at this; simp at this
       | true => have := (hj.dr_t hd).1; rw [h] at this; simp at this
 
+/-- **Defect on the transferred path.** `UpgradeAndTransferConnToPoller` calls the open handler outside the conn's
+    job queue, after the conn has been registered with the poller and the 101 response has been written: a message
+    callback can complete before the open callback does (and, not being serialised with it, overlap it). The
+    full-strength "open first on all upgrade paths" therefore fails there; `c14_open_first` is the part that holds
+    (every path on which `Upgrade` runs inside the request's job or before the read loop starts). -/
+theorem c14_transfer_open_race_counterexample :
+    let s := trun tinit [.register, .recv, .run, .next, .openCb]
+    s.log = [jobMsg 0, jobOpen] ∧ s.log.head? ≠ some jobOpen := by
+  decide
+
 /-- non-vacuity: two messages, a third arriving after the close flag (dropped), everything drained -/
 example :
     let s := run init [.upgrade, .recv, .run, .recv, .next, .flip, .recv, .run, .notify, .next, .run, .next, .run, .next]
@@ -256,7 +266,7 @@ theorem c14_direct_cut_means_dead (g : Cfg) (as : List Act) (hq : g.queued = fal
               · cases hs; exact h
               · cases hs; exact h
           · cases hs
-        | close => simp only [step] at hs; cases hs; exact h
+        | close => simp only [step] at hs; cases hs; intro _; rfl
       · exact ih s h
   exact key as init (by simp [init])
 
